@@ -12,3 +12,6 @@ cargo build --release 2>&1 | tail -n 3
 # `asm` build variant of C01 / C15 (tools/asm_stage.sh)
 cd "$ROOT/harness/asm"
 cargo build --release 2>&1 | tail -n 3
+# release-profile build variant of C13 (tools/variant_stage.sh)
+cd "$ROOT/harness/rel"
+cargo build --release 2>&1 | tail -n 3
